@@ -145,12 +145,79 @@ def _expect_one(args):
 
         return {"error": "%s: %s %s" % (type(ex).__name__, ex, traceback.format_exc()[-800:])}
     res = e.result
+    if e.admissible and res and res.get("value") is None and name in MEANTOMID and not e.exc:
+        try:
+            derived = meantomid_reference(repo, SPECS, classes, name, case, root)
+            if derived == "rounding-sensitive":
+                return {"admissible": False, "note": "double rounding changes which control points coincide (outside A-REAL)", "exc": e.exc, "result": res,
+                        "may_raise": getattr(e, "may_raise", []), "inconsistent": getattr(e, "inconsistent", False)}
+            if derived is not None:
+                res = dict(res, value=derived, value_source="bounded reference: NormalizeCurve / CvtToFuzzyCurve contract at the documented control points")
+                e.result = res
+        except Exception as ex:
+            return {"error": "mean-to-mid reference: %s: %s" % (type(ex).__name__, ex)}
     if e.admissible and res and res.get("dtype") == "int" and res.get("value") and any(v is not None and abs(v) >= 2.0 ** 62 for v in res["value"]):
         # A-REAL: integers are mathematical; a case whose exact integer result does not fit int64 is outside what is claimed
         return {"admissible": False, "note": "the exact integer result exceeds int64 (machine overflow is outside A-REAL)", "exc": e.exc, "result": res,
                 "may_raise": getattr(e, "may_raise", []), "inconsistent": getattr(e, "inconsistent", False)}
     return {"admissible": e.admissible, "note": e.note, "exc": e.exc, "result": e.result,
             "may_raise": getattr(e, "may_raise", []), "inconsistent": getattr(e, "inconsistent", False)}
+
+
+MEANTOMID = {"NormalizeMeanToMid": "NormalizeCurve", "CvtToFuzzyMeanToMid": "CvtToFuzzyCurve"}
+
+
+def meantomid_reference(repo, SPECS, classes, name, case, root):
+    """Bounded reference for the value clause the MeanToMid contracts leave open (documented definition): a piecewise-linear
+    curve through (min, mean of the values <= mean, mean, mean of the values > mean, max) of the valid data, where
+    IgnoreZeros removes zeros from the three means only; coinciding end points are merged. The curve itself is evaluated by
+    the NormalizeCurve / CvtToFuzzyCurve contract."""
+    from fractions import Fraction
+
+    inp = case["inputs"]["InFieldName"]
+    vals = [Fraction(v) for v, m in zip(inp["data"], inp["mask"]) if not m]
+    if not vals:
+        return None
+    lo, hi = min(vals), max(vals)
+    pool = [v for v in vals if v != 0] if case["params"].get("IgnoreZeros") else list(vals)
+    if not pool:
+        return None
+    mean = sum(pool) / len(pool)
+    below = [v for v in pool if v <= mean]
+    above = [v for v in pool if v > mean]
+    if not below or not above:
+        return None
+    raw = [lo, sum(below) / len(below), mean, sum(above) / len(above), hi]
+    # A-REAL: the claim is about real arithmetic. Where double rounding changes one of the comparisons that shape the curve
+    # (which cells lie below the mean, whether end points coincide), the case is outside it.
+    fvals = [float(v) for v in vals]
+    fpool = [v for v in fvals if v != 0] if case["params"].get("IgnoreZeros") else list(fvals)
+    fmean = sum(fpool) / len(fpool)
+    fbelow, fabove = [v for v in fpool if v <= fmean], [v for v in fpool if v > fmean]
+    if len(fbelow) != len(below) or len(fabove) != len(above) or not fbelow or not fabove:
+        return "rounding-sensitive"
+    fraw = [min(fvals), sum(fbelow) / len(fbelow), fmean, sum(fabove) / len(fabove), max(fvals)]
+    if (fraw[-1] == fraw[-2]) != (raw[-1] == raw[-2]) or (fraw[0] == fraw[1]) != (raw[0] == raw[1]):
+        return "rounding-sensitive"
+    pname = "NormalValues" if name == "NormalizeMeanToMid" else "FuzzyValues"
+    normal = list(case["params"][pname])
+    if len(normal) != 5:
+        return None
+    if raw[-1] == raw[-2]:
+        del raw[-2]
+        del normal[-2]
+    if raw[0] == raw[1]:
+        del raw[1]
+        del normal[1]
+    if len(set(raw)) != len(raw):
+        return None  # DuplicateRawValues territory: the curve contract decides, not this reference
+    curve = MEANTOMID[name]
+    c2 = {"module": classes[curve].module.dotted, "class": curve, "shape": case["shape"], "inputs": {"InFieldName": case["inputs"]["InFieldName"]},
+          "params": {"RawValues": [float(r) for r in raw], pname: normal}}
+    e2 = replay.expected(repo, classes[curve], SPECS[curve], c2, S.CONTRACTS, S.LOOPS)
+    if not e2.admissible or e2.exc or not e2.result or e2.result.get("value") is None:
+        return None
+    return e2.result["value"]
 
 
 class _E(object):
